@@ -20,6 +20,7 @@ CLAUSE = CLAUSE + (" In vbi_event_enable every reset action (network record, Tel
 CLAUSE = CLAUSE + (" station_lookup selects a table row by comparing the whole column with the CNI as received (only the VPS "
                    "column cni4 with the 12 bit code); removing a handler record does not end the list walk whose union of masks "
                    "gates the announcing decoders.")
+CLAUSE = CLAUSE + (" parse_8_30 decodes local time only under designation 0..1 and the programme id only under 2..3.")
 NOT_DECIDED = ("that the event carries exactly the transmitted values (value fidelity), exactly-one event under interleaved "
                "carriers, the XDS carrier's missing `id != nuid` test (XDS is checksum protected and not among the four "
                "carriers the statement quantifies over; recorded as a note).")
@@ -293,6 +294,7 @@ def run(ctx, run):
     _activation_only(ctx, run)
     _call_letters_rearm(ctx, run)
     _exact_lookup(ctx, run)
+    _designation_ranges(ctx, run)
     # the event mask that gates the announcing decoders is the union over *all* records (rule shared with C11)
     from . import C11
     for nm in ("vbi_event_handler_add", "vbi_event_handler_register"):
@@ -549,3 +551,37 @@ def _exact_lookup(ctx, run):
         else:
             run.holds("RF-CORR", key, "row selected by `%s` on the unmodified value" % ex.pretty(f, t["cond"])[:40], ex.loc(f, t["cond"]))
     run.floor("table column comparisons in station_lookup", n, 4)
+
+
+def _designation_ranges(ctx, run):
+    """RF-IVL: EN 300 706 defines packet 8/30 designation codes 0, 1 (format 1: local time) and
+    2, 3 (format 2: programme identification); every other code is reserved and announces
+    nothing.  At the call that decodes local time the designation is within [0, 1], at the call
+    that decodes the programme id within [2, 3] (interval analysis of parse_8_30)."""
+    P = ctx.prog
+    f = P.need("parse_8_30", "src/packet.c")
+    run.touch(f)
+    an = ctx.analysis(f)
+    n = 0
+    for callee, lo, hi, what in (("vbi_decode_teletext_8301_local_time", 0, 1, "local time (format 1)"),
+                                 ("vbi_decode_teletext_8302_pdc", 2, 3, "programme id (format 2)")):
+        for bid, i in flow.all_events(f):
+            e = f.exprs[i]
+            if e["k"] != "call" or e.get("callee") != callee:
+                continue
+            n += 1
+            st = an.state_before_expr(i)
+            iv = st.get(("iv", "designation")) if st is not None else None
+            if iv is None and st is not None:
+                for k, v in st.items():
+                    if isinstance(k, tuple) and len(k) == 2 and k[1] == "designation" and isinstance(v, tuple):
+                        iv = v
+            key = "RF-IVL:parse_8_30:%s" % callee
+            if iv is not None and iv[0] is not None and iv[1] is not None and lo <= iv[0] and iv[1] <= hi:
+                run.holds("RF-IVL", key, "%s is decoded under designation in %s" % (what, list(iv)), ex.loc(f, i))
+            else:
+                run.violation("RF-IVL", key, "parse_8_30() decodes %s from a packet whose designation code is in %s; only %d and %d "
+                              "are defined for it: a packet with a reserved designation raises an event with values nobody "
+                              "transmitted" % (what, list(iv) if iv else "(unbounded)", lo, hi), ex.loc(f, i),
+                              witness={"designation": list(iv) if iv else None})
+    run.floor("8/30 payload decoders called from parse_8_30", n, 2)
